@@ -1,6 +1,7 @@
 import Sm9.Proofs.Sqrt
 import Sm9.Proofs.Consts
 import Sm9.Proofs.Decoders
+import Sm9.Proofs.DecodersG2
 /-!
 # C14 — Square roots are sound and complete in Fq and Fq2
 Full strength on the model: for **every** x in Fq and in Fq2, `sqrt x` is `some s` with
@@ -28,6 +29,16 @@ theorem exponents : Fq.minus1_div4 = (Consts.FQ - 1) / 4 ∧ Fq.minus5_div8 = (C
 theorem g1_decompression_succeeds (x y : Fq) (h : y * y = x * x * x + b1) :
     Api.g1FromCompressed (compByte y.is_even :: Api.fqToSlice x) = .ok { x := x, y := y, z := 1 } :=
   Sm9.g1_from_compressed_encode x y h
+/-- the same for G2: for every subgroup point `(x, y)` of the twist both prefixes decompress (to `(x, ±y)`), and with
+    Re y ≠ 0 the prefix of y gives back exactly `(x, y)` -/
+theorem g2_decompression_succeeds (x y : Fq2) (h : y * y = x * x * x + b2)
+    (hsub : r • G2.toAff { x := x, y := y, z := 1 } = 0) :
+    (∀ b : UInt8, (b.toNat = 2 ∨ b.toNat = 3) →
+      ∃ P : G2, Api.g2FromCompressed (b :: Api.fq2ToSlice x) = .ok P ∧ P.x = x ∧ (P.y = y ∨ P.y = -y) ∧ P.z = 1) ∧
+    (y.c0 ≠ 0 → ∃ P : G2, Api.g2FromCompressed (compByte (Api.fq2IsEven y) :: Api.fq2ToSlice x) = .ok P ∧
+      P.x = x ∧ P.y = y ∧ P.z = 1) :=
+  ⟨fun b hb => Sm9.g2_from_compressed_complete x y h hsub b hb,
+   fun hre => Sm9.g2_from_compressed_complete_exact x y h hsub hre _ rfl⟩
 /-- the D6 witnesses on the repaired code: −4 and 2 (imaginary part 0) have verified roots -/
 theorem d6_witnesses :
     ((Fq2.new (-(Fq.ofNat 4)) 0).sqrt.map fun s => decide (s * s = Fq2.new (-(Fq.ofNat 4)) 0)) = some true ∧
